@@ -117,7 +117,17 @@ pub fn model(spec: &'static Spec) -> BoxedStrategy<Model> {
         .opts
         .iter()
         .map(|o| {
-            let v = val(o.ty).prop_map(move |v| off_reserved(spec, v));
+            // the argument that follows a value-taking option is the value, whatever it looks like:
+            // words of the grammar (help flags, option tokens, subcommand names) are legal values
+            let v = match o.ty {
+                Ty::Str | Ty::String | Ty::UStr => {
+                    let mut words = spec.vocabulary();
+                    words.push(b"-h".to_vec());
+                    words.push(b"--help".to_vec());
+                    prop_oneof![6 => val(o.ty), 1 => prop::sample::select(words)].prop_map(BStr).boxed()
+                }
+                _ => val(o.ty).prop_map(BStr).boxed(),
+            };
             match o.kind {
                 Kind::Flag => any::<bool>().prop_map(|b| if b { vec![BStr(Vec::new())] } else { Vec::new() }).boxed(),
                 Kind::Req => v.prop_map(|x| vec![x]).boxed(),
